@@ -199,6 +199,7 @@ def _shard_worker(check_id: str, tier: str, seed: int, shard: int, examples: int
                 if not state["failed"]:
                     state["failed"] = True
                     state["failed_at"] = time.time()
+                    state["first_violation"] = {"clause": clause, "detail": detail, "case": jsonable(case)}
                 failing.add(key)
                 raise Violation(clause, detail, case)
 
@@ -228,6 +229,7 @@ def _shard_worker(check_id: str, tier: str, seed: int, shard: int, examples: int
                     if not state["failed"]:
                         state["failed"] = True
                         state["failed_at"] = time.time()
+                        state["first_violation"] = {"clause": clause, "detail": detail, "case": jsonable(case)}
                     raise Violation(clause, detail, case)
 
                 machine_cls = mod.machine(tier, record, raise_or_known)
@@ -245,7 +247,14 @@ def _shard_worker(check_id: str, tier: str, seed: int, shard: int, examples: int
         except Violation as vio:
             result["violation"] = {"clause": vio.clause, "detail": vio.detail, "case": jsonable(vio.case)}
         except hypothesis.errors.HypothesisException as exc:
-            result["error"] = f"hypothesis: {type(exc).__name__}: {exc}"
+            first = state.get("first_violation")
+            if first is not None and "Flaky" in type(exc).__name__:
+                # the oracle failed on real output once and the identical case passed when Hypothesis replayed it: the code under
+                # test is not a function of its input (every check here is deterministic by construction) - report what was seen
+                first["detail"] += " [not reproduced when the identical case was run again: the outcome is not a function of the input]"
+                result["violation"] = first
+            else:
+                result["error"] = f"hypothesis: {type(exc).__name__}: {exc}"
         result["nontrivial_hashes"] = sorted(hashes)
     except Exception:  # pylint: disable=broad-except
         result["error"] = traceback.format_exc()
